@@ -828,8 +828,10 @@ func evalMemberMethodExpr(vm *r.VM, expr *syntax.MemberMethodExpr) (r.Element, e
 			return nil, err
 		}
 
-		// bind yield result (read-only, same as （方法），得到X)
-		if err := vm.DeclareConstElement(vtag, vlast); err != nil {
+		// bind yield result (read-only, same as （方法），得到X): like every declaration it
+		// stores a copy, so the name keeps the value the call yielded even when the callee
+		// handed out one of its own (mutable) elements and changes it in place later
+		if err := vm.DeclareConstElement(vtag, value.DuplicateValue(vlast)); err != nil {
 			return nil, err
 		}
 	}
